@@ -3,8 +3,8 @@
    the dialect semantics of Model/C01Sql.v (only SQLite executes in this sandbox; PostgreSQL and MySQL are documentation
    models).  [safe d] is the complement of the recorded per-dialect defects (Findings/C01.v, Findings/C02.v). *)
 Require Import PonyV.Base.PyBase PonyV.Model.C01Expr PonyV.Model.C01Sql PonyV.Model.C01Translate PonyV.Model.C01Safe
-               PonyV.Model.C01Eqb PonyV.Model.C01Query PonyV.Model.C01Join PonyV.Model.C01Coll PonyV.Model.C01Aggr PonyV.Model.C01Len PonyV.Model.C01Form
-               PonyV.Proofs.C01Rows PonyV.Proofs.C01Join PonyV.Proofs.C02Agree PonyV.Proofs.C02Join PonyV.Proofs.C01Coll PonyV.Proofs.C02Coll PonyV.Proofs.C01Aggr PonyV.Proofs.C02Aggr PonyV.Proofs.C01Len PonyV.Proofs.C02Len PonyV.Proofs.C01Form PonyV.Proofs.C02Form.
+               PonyV.Model.C01Eqb PonyV.Model.C01Query PonyV.Model.C01Join PonyV.Model.C01Coll PonyV.Model.C01Aggr PonyV.Model.C01Len PonyV.Model.C01Form PonyV.Model.C01Group PonyV.Model.C01Order
+               PonyV.Proofs.C01Rows PonyV.Proofs.C01Join PonyV.Proofs.C02Agree PonyV.Proofs.C02Join PonyV.Proofs.C01Coll PonyV.Proofs.C02Coll PonyV.Proofs.C01Aggr PonyV.Proofs.C02Aggr PonyV.Proofs.C01Len PonyV.Proofs.C02Len PonyV.Proofs.C01Form PonyV.Proofs.C02Form PonyV.Proofs.C01Group PonyV.Proofs.C02Group PonyV.Proofs.C01Order PonyV.Proofs.C02Order.
 
 (* a selected expression decodes to the same Python value on any two dialects *)
 Theorem C02_agree_project_except_known : forall d1 d2, modelled d1 = true -> modelled d2 = true ->
@@ -97,6 +97,32 @@ Theorem C02_agree_aggregate_except_known : forall d1 d2, modelled d1 = true -> m
   deca_g g (sql_aggr d1 qa1 c1 table) = deca_g g (sql_aggr d2 qa2 c2 table).
 Proof. exact agree_aggr. Qed.
 Print Assumptions C02_agree_aggregate_except_known.
+
+(* GROUP BY with selected aggregates (Model/C01Group.v): both dialects return the stored forms of the same Python rows *)
+Theorem C02_agree_group_rows_except_known : forall d1 d2, modelled d1 = true -> modelled d2 = true ->
+  forall table filt items q1 c1 q2 c2,
+  filt_typed filt = true ->
+  tr_where d1 filt = Some c1 -> tr_items d1 items = Some q1 ->
+  tr_where d2 filt = Some c2 -> tr_items d2 items = Some q2 ->
+  forallb (item_safe d1) items = true -> forallb (item_safe d2) items = true ->
+  keys_ok (map (fun en => attr_val en 0%nat) table) = true ->
+  Forall (fun en => grow_ok d1 filt items en /\ grow_ok d2 filt items en) table ->
+  exists rows, sql_group_rows d1 q1 c1 table = map (map (enca d1)) rows /\ sql_group_rows d2 q2 c2 table = map (map (enca d2)) rows.
+Proof. exact agree_group_rows. Qed.
+Print Assumptions C02_agree_group_rows_except_known.
+
+(* ordering (Model/C01Order.v): the same ordered list when both dialects sort NULL to the same end or no key of a kept row is None;
+   known bad: a None key on SQLite / MySQL vs PostgreSQL (finding order-by-null-placement-differs) *)
+Theorem C02_agree_order_rows_except_known : forall d1 d2, modelled d1 = true -> modelled d2 = true ->
+  forall table filt ks proj vt k1 c1 q1 k2 c2 q2,
+  filt_typed filt = true -> ty_of proj = Some (TV vt) ->
+  tr_where d1 filt = Some c1 -> tr_order d1 ks = Some k1 -> tr_project d1 proj = Some q1 ->
+  tr_where d2 filt = Some c2 -> tr_order d2 ks = Some k2 -> tr_project d2 proj = Some q2 ->
+  Forall (fun en => orow_ok d1 filt ks proj en /\ orow_ok d2 filt ks proj en) table ->
+  nulls_first d1 = nulls_first d2 \/ keys_not_none ks filt table = true ->
+  map (dec (TV vt)) (sql_order_rows d1 k1 c1 q1 table) = map (dec (TV vt)) (sql_order_rows d2 k2 c2 q2 table).
+Proof. exact agree_order_rows. Qed.
+Print Assumptions C02_agree_order_rows_except_known.
 
 (* query[offset:] : each dialect's way of writing "no limit" (SQLite LIMIT -1, MySQL LIMIT 18446744073709551615,
    PostgreSQL LIMIT null) returns exactly the rows after the offset (tables of at most 2^64 - 1 rows) *)
